@@ -419,8 +419,8 @@ def task_cmp(a=D / "a.txt", b=D / "b.txt", produces=D / "same.txt"):
 
 
 def f50_witness(server) -> dict:
-    """a=b=1, build; a=b=2 (the product stays "equal"); the rebuild is killed before / after EVERY commit of a state row (each in a
-    fresh restore of the project); then b is put back to 1 and the project is built. Oracle: that build must not report the task
+    """a=b=1, build; a=b=2 (the product stays "equal"); the rebuild is killed before / after EVERY commit and EVERY INSERT/UPDATE
+    statement on the state table (each in a fresh restore of the project); then b is put back to 1 and the project is built. Oracle: that build must not report the task
     SKIP_UNCHANGED / SUCCESS with same.txt == "equal" (a != b). With one commit per row the kill after the first row commit
     fails it; with one transaction per task there is a single commit and nothing fails.
     Returns {"kills": n, "stale": [ {point, outcome, same.txt} … ]}."""
@@ -442,7 +442,8 @@ def f50_witness(server) -> dict:
         try:
             server.build(root, {}, env={"PYTASK_VERIF": "1", "PYTASK_VERIF_POINTS": str(pts)})
             points = read_points(pts)
-            ks = [(n, kind) for (n, kind, a) in points if kind in ("commit.before", "commit.after") and a == "state"]
+            ks = [(n, kind) for (n, kind, a) in points
+                  if kind in ("commit.before", "commit.after", "stmt.before", "stmt.after") and a == "state"]
             out["state_commits_in_full_build"] = sum(1 for _, kind in ks if kind == "commit.after")
             for n, kind in ks:
                 restore(root, backup)
